@@ -597,6 +597,117 @@ def _run_rest(chk, fx):
         if len(init) != 1 or strip(init[0].get("init") or {}).get("n") != "MESS":
             chk.violation(r_ts, wname + ":default", "%s: the array type no longer defaults to MESS before the element type is inspected" % wname, w["file"], w["l"])
 
+    # ---- C07.blockloop: how the binary writers cut an array into records
+    r_bl = chk.rule("C07.blockloop", "the three unformatted array writers of EclOutput (numeric/logical, strings, padded strings) cut the payload into records the same way: the byte count starts as size x element size; while it is positive a record takes min(rest, block bytes) - (rest > block) ? block / element : rest / element elements, rest becomes rest - block resp. 0 - (compared as symbolic terms, if/else and ?: alike); the element loop of a record runs from 0 to that count in steps of one, and the cursor into the data advances exactly once per element (data[m + offset] with offset += count after the record, data[n] with n++ in the loop, or an iterator advanced in the loop header)", floor=3)
+    from verif import symb as syb
+    bw = [f for f in fx.fns if f["n"] in ("writeBinaryArray", "writeBinaryCharArray") and f.get("body") and f["file"].endswith("EclOutput.cpp")]
+    if len(bw) != 3:
+        raise core.AnalysisBroken("EclOutput binary writers: %d found (3 expected)" % len(bw))
+    for f in bw:
+        key = "%s/%s" % (f["n"], (f["params"][0]["t"] if f["params"] else "")[:40])
+        top = stmt_list(f["body"])
+        whiles = [n for n in top if n["k"] == "While"]
+        problems = []
+        if len(whiles) != 1:
+            problems.append("no single record loop")
+        else:
+            wl = whiles[0]
+            decl_all = {v["n"]: v for n in walk(f["body"]) if n["k"] == "Decl" for v in n["vars"]}
+            el = [k_ for k_, v in decl_all.items() if isinstance(v.get("init"), dict) and re.search(r"std::get<0>\(|get\(sizeData\)|std::get\(", show(v["init"])) and "0" in re.findall(r"get<(\d)>", show(v["init"]) + "get<9>")[:1]]
+            names = {"e": None, "B": None, "M": None}
+            for k_, v in decl_all.items():
+                if not isinstance(v.get("init"), dict):
+                    continue
+                i0 = strip(v["init"])
+                if i0.get("k") == "Call" and i0.get("fn") == "std::get" and (i0.get("targs") or [None])[0] in ("0", "1"):
+                    names["e" if i0["targs"][0] == "0" else "B"] = k_
+            for k_, v in decl_all.items():
+                if isinstance(v.get("init"), dict) and names["B"] and names["e"] and show(strip(v["init"])) == "(%s / %s)" % (names["B"], names["e"]):
+                    names["M"] = k_
+            cnd = strip(wl["cond"])
+            restv = strip(cnd["c"][0]).get("n") if cnd.get("k") == "Bin" and cnd.get("op") == ">" and show(strip(cnd["c"][1])) == "0" else None
+            if restv is None or None in names.values():
+                problems.append("record loop is not `while (rest > 0)` or element size / block bytes / elements per block not identified (%s, %s)" % (show(cnd), names))
+            else:
+                # initial byte count
+                init_r = None
+                for n in top:
+                    if n["k"] == "Decl":
+                        for v in n["vars"]:
+                            if v["n"] == restv and isinstance(v.get("init"), dict):
+                                init_r = v["init"]
+                    elif n["k"] == "Bin" and n.get("asg") and n["op"] == "=" and strip(n["c"][0]).get("n") == restv and n is not wl:
+                        init_r = n["c"][1]
+                R_, B_, e_ = syb.S("R"), syb.S("B"), syb.S("e")
+
+                def leaf_b(x):
+                    if x.get("k") == "Ref":
+                        if x.get("n") == names["e"]:
+                            return e_
+                        if x.get("n") == names["B"]:
+                            return B_
+                        if x.get("n") == names["M"]:
+                            return syb.div(B_, e_)
+                        if x.get("n") in ("size",) or (x.get("n") in decl_all and "size()" in show(decl_all[x["n"]].get("init"))):
+                            return syb.S("N")
+                    if x.get("k") == "MCall" and x.get("m") == "size":
+                        return syb.S("N")
+                    return None
+                evb = syb.Eval(leaf_b, set(decl_all) | {restv})
+                t0 = evb.term(init_r, {}) if init_r is not None else None
+                if t0 != syb.mul(syb.S("N"), e_):
+                    problems.append("the byte count starts as %s, required size x element size" % syb.show_term(t0))
+                body_w = stmt_list(wl["body"])
+                # statements up to the first write call
+                pre = []
+                for n in body_w:
+                    if n["k"] == "MCall" and n.get("m") == "write":
+                        break
+                    pre.append(n)
+                env_b = evb.run(pre, {restv: R_})
+                # at rest == block both branches give the same record, so `>` and `>=` are the same split
+                cntv = [k_ for k_, v in env_b.items() if v is not None and k_ != restv and v in (syb.cond(("gt", R_, B_), syb.div(B_, e_), syb.div(R_, e_)), syb.cond(("ge", R_, B_), syb.div(B_, e_), syb.div(R_, e_)))]
+                want_rest = syb.cond(("gt", R_, B_), syb.sub(R_, B_), syb.I(0))
+                if env_b.get(restv) == syb.cond(("ge", R_, B_), syb.sub(R_, B_), syb.I(0)):
+                    want_rest = env_b.get(restv)
+                if len(cntv) != 1:
+                    problems.append("no variable holds (rest > block) ? block / element : rest / element before the head marker is written (%s)" % {k_: syb.show_term(v) for k_, v in env_b.items() if k_ in decl_all and v is not None and k_ not in names.values()})
+                if env_b.get(restv) != want_rest:
+                    problems.append("after a record the byte count is %s, required (rest > block) ? rest - block : 0" % syb.show_term(env_b.get(restv)))
+                if len(cntv) == 1:
+                    cv = cntv[0]
+                    eloops = [n for n in walk(wl["body"]) if n["k"] == "For"]
+                    if not eloops:
+                        problems.append("no element loop")
+                    for lp in eloops:
+                        iv = lp["init"]["vars"][0]["n"] if lp.get("init") and lp["init"].get("k") == "Decl" else None
+                        st0 = evb.term(lp["init"]["vars"][0]["init"], {}) if iv else None
+                        inc_t = show(lp.get("inc"))
+                        if not (iv and st0 == syb.I(0) and show(lp["cond"]) == "(%s < %s)" % (iv, cv) and re.search(r"\(\+\+%s\)|\(%s\+\+\)" % (iv, iv), inc_t)):
+                            problems.append("element loop for (%s; %s; %s) is not 0 .. count in steps of one" % (show(lp.get("init"))[:40], show(lp["cond"]), inc_t))
+                            continue
+                        bt = show(lp["body"])
+                        m_off = re.search(r"data\[\(%s \+ (\w+)\)\]|data\[\((\w+) \+ %s\)\]" % (iv, iv), bt)
+                        m_n = re.search(r"data\[(\w+)\]", bt)
+                        if m_off:
+                            off = m_off.group(1) or m_off.group(2)
+                            adv = [show(x) for x in body_w if x["k"] == "Bin" and x.get("asg") and strip(x["c"][0]).get("n") == off]
+                            if adv != ["(%s += %s)" % (off, cv)]:
+                                problems.append("the offset `%s` advances by %s per record, required += %s" % (off, adv, cv))
+                        elif m_n and m_n.group(1) != iv:
+                            nvar = m_n.group(1)
+                            adv = [show(x) for x in stmt_list(lp["body"]) if x["k"] == "Un" and strip(x["c"][0]).get("n") == nvar]
+                            if adv not in (["(%s++)" % nvar], ["(++%s)" % nvar]):
+                                problems.append("the cursor `%s` advances %s per element, required once" % (nvar, adv))
+                        else:
+                            its = re.findall(r"\(\+\+(\w+)\)", inc_t)
+                            others = [x for x in its if x != iv]
+                            if len(others) != 1 or ("->%s" % others[0]) not in bt.replace("(->", "->").replace(")", "") and others[0] not in bt:
+                                problems.append("no data cursor advancing once per element found in the element loop")
+        chk.instance(r_bl, key, sample=dict(function=f["q"], line=f["l"], problems=problems))
+        for pr in problems:
+            chk.violation(r_bl, key + ":" + pr[:30], "%s (line %d): %s" % (f["q"], f["l"], pr), f["file"], f["l"])
+
     # ---- C07.getsel: typed accessors ask for the array type that belongs to the container they return from
     r_gs = chk.rule("C07.getsel", "the typed read accessors of the result-file classes (EclFile, ERst, EInit, EGrid): every getImpl(index, TYPE, container, ...) pairs INTE with inte_array, REAL with real_array, DOUB with doub_array, LOGI with logi_array; an accessor that RETURNS strings from char_array accepts both string types - it passes the array's own type array_type[index] (after checking it is CHAR or C0NN) or delegates to get<std::string>(index) - so an array that can be read by index can be read by name", floor=25)
     gx_units = [u for u in ("opm/io/eclipse/EclFile.cpp", "opm/io/eclipse/ERst.cpp", "opm/io/eclipse/EInit.cpp", "opm/io/eclipse/EGrid.cpp", "opm/io/eclipse/ERft.cpp", "opm/io/eclipse/ESmry.cpp")]
